@@ -197,6 +197,9 @@ class Engine:
         fx = FnExec(self, None, None, spec_mode=True)
         t = self.ops.term(fx.eval(parse_expr(text), State()), BOOL)
         self.ctx.add_axiom(name, t)
+        if not hasattr(self, "axiom_texts"):
+            self.axiom_texts = {}
+        self.axiom_texts[name] = " ".join(text.split())
         self.assumptions.append(f"axiom {name}: {' '.join(text.split())}" + (f" ({note})" if note else ""))
 
     # ------------------------------------------------------------------ source access
